@@ -196,6 +196,37 @@ pub fn check_value(v: &RVal, acc: &mut Acc, full: bool) {
                     }
                 }
             }
+            // the other two readers that take text: `from_slice` (text fall-back) and the lazy reader
+            match guard(|| {
+                let o = to_value(v);
+                let a = jsonb::from_slice(text.as_bytes()).map(|x| (x == o && o == x, x.to_vec()));
+                let l = jsonb::parse_lazy_value(text.as_bytes()).map(|l| {
+                    let mut w = Vec::new();
+                    l.write_to_vec(&mut w);
+                    (l.to_vec(), w, l.to_value().into_owned() == o)
+                });
+                (a, l)
+            }) {
+                Err(p) => acc.vio(&format!("{}:from_slice-or-parse_lazy_value:{}", name, panic_class(&p)), ctx),
+                Ok((a, l)) => {
+                    match a {
+                        Err(e) => acc.vio(&format!("{}:from_slice-rejects-own-rendering", name), || json!({"ctx": ctx(), "text": text, "err": format!("{:?}", e)})),
+                        Ok((eq, re)) => {
+                            if !eq || (v.nonneg_ints_unsigned() && re != bytes) {
+                                acc.vio(&format!("{}:from_slice-not-the-original", name), || json!({"ctx": ctx(), "text": text, "reencoded": hex(&re)}));
+                            }
+                        }
+                    }
+                    match l {
+                        Err(e) => acc.vio(&format!("{}:parse_lazy_value-rejects-own-rendering", name), || json!({"ctx": ctx(), "text": text, "err": format!("{:?}", e)})),
+                        Ok((tv, w, eq)) => {
+                            if !eq || (v.nonneg_ints_unsigned() && (tv != bytes || w != bytes)) {
+                                acc.vio(&format!("{}:parse_lazy_value-not-the-original", name), || json!({"ctx": ctx(), "text": text, "to_vec": hex(&tv), "write_to_vec": hex(&w)}));
+                            }
+                        }
+                    }
+                }
+            }
         }
     }
     if strip_insignificant_ws(&pretty) != compact {
